@@ -8,6 +8,8 @@ pub mod c09;
 pub mod c10;
 pub mod c11;
 pub mod c13;
+pub mod c14;
+pub mod c15;
 pub mod c16;
 
 use crate::engine::Check;
@@ -24,7 +26,10 @@ pub fn get(prop: &str) -> Option<Box<dyn Check>> {
         "C09" => Some(Box::new(c09::C09::new())),
         "C10" => Some(Box::new(c10::C10::new())),
         "C11" => Some(Box::new(c11::C11::new())),
+        "C12" => Some(Box::new(c14::C12::new())),
+        "C14" => Some(Box::new(c14::C14::new())),
         "C13" => Some(Box::new(c13::AsmCheck::new(c13::Which::C13))),
+        "C15" => Some(Box::new(c15::C15::new())),
         "C16" => Some(Box::new(c16::C16::new())),
         _ => None,
     }
